@@ -6,7 +6,7 @@ trace and against the independent numerical specification (specnum.py)."""
 import os, sys
 sys.path.insert(0, os.path.dirname(os.path.abspath(__file__)))
 from vlib import guarded_main
-import specnum, ttcheck
+import specnum, ttcheck, invertcheck
 
 # groups: 0 tensor, 1 st2tost2, 2 t2tot2, 3 t2tost2 / st2tot2 / mixed products, 4 extensions (polar decomposition, remaining products)
 PARTS = {(0, 3): 2, (1, 3): 5, (2, 3): 4, (3, 3): 3, (1, 2): 2, (2, 2): 2, (4, 3): 3, (4, 2): 2}
@@ -24,6 +24,7 @@ def main(c):
                 conditional={"A_convert": ("Properties_C02_convert.v", "Properties_C02_convert_refuted.v"),
                              # computeDeterminantSecondDerivative(tensor<N>): finding shared with C06 (thorough tier only)
                              "B_d2det": ("Properties_C02_d2det.v", "Properties_C02_d2det_refuted.v", 1)})
+    invertcheck.run(c)
     c.coverage["rule"] = ("every operation of the registry (props/C02/trace.cxx) x N=1,2,3 (quick: all but the most expensive 3D instances); "
                           "seeded inputs per operation: generic reals in [-2,2], small integers incl. zeros and ties, one magnitude 1e-3..1e3 per input; "
                           "invertible tensors = identity + perturbation (det > 0)")
